@@ -1,5 +1,6 @@
-(* C11/Proofs.v — lemmas about the IR semantics and the writers. *)
-From Coq Require Import List NArith Bool Lia.
+(* C11/Proofs.v — the IR semantics is compositional; every writer of Model.v produces a fragment whose behaviour
+   is the PolicyRef meaning of what it was given.  Part 1: generic lemmas and one rule. *)
+From Coq Require Import List NArith Bool Lia Btauto.
 From Verif.Common Require Import Packet PolicyRef.
 From Verif.C11 Require Import Bpf Model Spec.
 Import ListNotations.
@@ -13,3 +14,150 @@ Proof.
     + destruct i; try apply IH. destruct (label_eqb l l0); apply IH.
     + destruct i; try apply IH. destruct (Bool.eqb (ev c) sense); apply IH.
 Qed.
+
+Lemma label_eqb_eq : forall a b, label_eqb a b = true <-> a = b.
+Proof.
+  intros a b; split.
+  - destruct a, b; simpl; intro H; try discriminate; try reflexivity;
+      try (apply N.eqb_eq in H; subst; reflexivity).
+    apply andb_true_iff in H. destruct H as [H1 H2]. apply N.eqb_eq in H1, H2. subst. reflexivity.
+  - intros <-. destruct a; simpl; try reflexivity; rewrite ?N.eqb_refl; reflexivity.
+Qed.
+Lemma label_eqb_refl : forall a, label_eqb a a = true.
+Proof. intro a. apply label_eqb_eq. reflexivity. Qed.
+Lemma label_eqb_neq : forall a b, a <> b -> label_eqb a b = false.
+Proof. intros a b H. destruct (label_eqb a b) eqn:E; auto. apply label_eqb_eq in E. contradiction. Qed.
+
+Section Exec.
+Variable ev : cond -> bool.
+
+(* `steps c m m'`: from mode m the fragment c ends in mode m', whatever the log flag *)
+Definition steps (c : list ir) (m m' : option label) : Prop := forall lg, fst (exec ev c m lg) = m'.
+
+Lemma steps_nil : forall m, steps [] m m.
+Proof. intros m lg. reflexivity. Qed.
+
+Lemma steps_app : forall c1 c2 m m1 m2, steps c1 m m1 -> steps c2 m1 m2 -> steps (c1 ++ c2) m m2.
+Proof.
+  intros c1 c2 m m1 m2 H1 H2 lg. rewrite exec_app. specialize (H1 lg).
+  destruct (exec ev c1 m lg) as [m1' lg1]. simpl in H1. subst m1'. apply H2.
+Qed.
+
+Lemma steps_det : forall c m m1 m2, steps c m m1 -> steps c m m2 -> m1 = m2.
+Proof. intros c m m1 m2 H1 H2. rewrite <- (H1 false). apply H2. Qed.
+
+(* labels a fragment defines all satisfy P *)
+Definition defs_in (P : label -> bool) (c : list ir) : Prop := forall l, In (ILabel l) c -> P l = true.
+
+Lemma defs_in_nil : forall P, defs_in P [].
+Proof. intros P l []. Qed.
+Lemma defs_in_app : forall P c1 c2, defs_in P c1 -> defs_in P c2 -> defs_in P (c1 ++ c2).
+Proof. intros P c1 c2 H1 H2 l H. apply in_app_or in H. destruct H; auto. Qed.
+Lemma defs_in_weaken : forall (P Q : label -> bool) c, (forall l, P l = true -> Q l = true) -> defs_in P c -> defs_in Q c.
+Proof. intros P Q c H H1 l Hl. auto. Qed.
+Lemma defs_in_map_nolabel : forall P {A} (f : A -> ir) (xs : list A),
+  (forall a l, f a <> ILabel l) -> defs_in P (map f xs).
+Proof. intros P A f xs H l Hl. apply in_map_iff in Hl. destruct Hl as [a [Ha _]]. exfalso. eapply H; eauto. Qed.
+
+(* a pending jump passes over a fragment that does not define its label *)
+Lemma steps_skip : forall P c l, defs_in P c -> P l = false -> steps c (Some l) (Some l).
+Proof.
+  intros P c l Hd Hl. induction c as [|i c IH]; intro lg; simpl; [reflexivity|].
+  assert (Hc : defs_in P c) by (intros l' H'; apply Hd; right; exact H').
+  destruct i; try (apply IH; exact Hc).
+  destruct (label_eqb l l0) eqn:E.
+  - apply label_eqb_eq in E. subst l0. rewrite (Hd l) in Hl by (left; reflexivity). discriminate.
+  - apply IH; exact Hc.
+Qed.
+
+Lemma exec_skip : forall P c l lg, defs_in P c -> P l = false -> exec ev c (Some l) lg = (Some l, lg).
+Proof.
+  intros P c l lg Hd Hl. revert lg. induction c as [|i c IH]; intro lg; simpl; [reflexivity|].
+  assert (Hc : defs_in P c) by (intros l' H'; apply Hd; right; exact H').
+  destruct i; try (apply IH; exact Hc).
+  destruct (label_eqb l l0) eqn:E.
+  - apply label_eqb_eq in E. subst l0. rewrite (Hd l) in Hl by (left; reflexivity). discriminate.
+  - apply IH; exact Hc.
+Qed.
+
+(* a run of conditional jumps to one label: the first test that fires decides *)
+Definition fires (t : bool * cond) : bool := Bool.eqb (ev (snd t)) (fst t).
+Definition tests_to (L : label) (ts : list (bool * cond)) : list ir := map (fun t => IJmpIf (fst t) (snd t) L) ts.
+
+Lemma exec_tests : forall L ts rest lg,
+  exec ev (tests_to L ts ++ rest) None lg = exec ev rest (if existsb fires ts then Some L else None) lg.
+Proof.
+  intros L ts rest lg. induction ts as [|t ts IH]; simpl; [reflexivity|].
+  unfold fires at 1. destruct (Bool.eqb (ev (snd t)) (fst t)); simpl.
+  - change (exec ev (tests_to L ts ++ rest) (Some L) lg = exec ev rest (Some L) lg).
+    rewrite exec_app. rewrite (exec_skip (fun _ => false)); [reflexivity| |reflexivity].
+    apply defs_in_map_nolabel. intros a l H; discriminate.
+  - exact IH.
+Qed.
+
+Lemma steps_tests : forall L ts, steps (tests_to L ts) None (if existsb fires ts then Some L else None).
+Proof.
+  intros L ts lg. rewrite <- (app_nil_r (tests_to L ts)). rewrite exec_tests. reflexivity.
+Qed.
+
+Lemma defs_in_tests : forall P L ts, defs_in P (tests_to L ts).
+Proof. intros. apply defs_in_map_nolabel. intros a l H; discriminate. Qed.
+
+(* ------------------------------------------------------------------ criteria of one rule *)
+Definition is_part (l : label) : bool := match l with LPart _ _ => true | _ => false end.
+Definition is_rule_label (l : label) : bool := match l with LPart _ _ | LNoMatch _ => true | _ => false end.
+
+(* a criterion fragment of rule `rid`: falls through when b holds, otherwise leaves a jump to rule_<rid>_no_match
+   pending; defines part labels only *)
+Definition crit (rid : N) (c : list ir) (b : bool) : Prop :=
+  steps c None (if b then None else Some (LNoMatch rid)) /\ defs_in is_part c.
+
+Lemma crit_nil : forall rid, crit rid [] true.
+Proof. intro rid. split; [apply steps_nil | apply defs_in_nil]. Qed.
+
+Lemma crit_app : forall rid c1 c2 b1 b2, crit rid c1 b1 -> crit rid c2 b2 -> crit rid (c1 ++ c2) (b1 && b2).
+Proof.
+  intros rid c1 c2 b1 b2 [S1 D1] [S2 D2]. split; [|apply defs_in_app; assumption].
+  destruct b1; simpl.
+  - eapply steps_app; [exact S1 | exact S2].
+  - eapply steps_app; [exact S1 |]. eapply steps_skip; [exact D2 | reflexivity].
+Qed.
+
+Lemma crit_eq : forall rid c b b', crit rid c b -> b = b' -> crit rid c b'.
+Proof. intros; subst; assumption. Qed.
+
+(* AND group: every test jumps to no_match when it fires *)
+Lemma crit_and_tests : forall rid ts, crit rid (tests_to (LNoMatch rid) ts) (negb (existsb fires ts)).
+Proof.
+  intros rid ts. split; [|apply defs_in_tests].
+  intro lg. rewrite (steps_tests (LNoMatch rid) ts lg). destruct (existsb fires ts); reflexivity.
+Qed.
+
+(* OR group: any test that fires jumps to the part label placed after the "else no_match" jump *)
+Lemma crit_or_tests : forall rid k ts,
+  crit rid (tests_to (LPart rid k) ts ++ [IJmp (LNoMatch rid); ILabel (LPart rid k)]) (existsb fires ts).
+Proof.
+  intros rid k ts. split.
+  - intro lg. rewrite exec_tests. destruct (existsb fires ts); simpl.
+    + rewrite !N.eqb_refl. reflexivity.
+    + reflexivity.
+  - apply defs_in_app; [apply defs_in_tests|].
+    intros l [H|[H|[]]]; inversion H; reflexivity.
+Qed.
+
+End Exec.
+
+(* existsb over a mapped list *)
+Lemma existsb_map : forall {A B} (f : A -> B) (g : B -> bool) (l : list A), existsb g (map f l) = existsb (fun a => g (f a)) l.
+Proof. induction l; simpl; congruence. Qed.
+Lemma existsb_ext' : forall {A} (f g : A -> bool) l, (forall a, f a = g a) -> existsb f l = existsb g l.
+Proof. intros A f g l H. induction l; simpl; congruence. Qed.
+Lemma existsb_app' : forall {A} (f : A -> bool) l1 l2, existsb f (l1 ++ l2) = existsb f l1 || existsb f l2.
+Proof. intros. apply existsb_app. Qed.
+Lemma forallb_negb_existsb : forall {A} (f : A -> bool) l, forallb (fun a => negb (f a)) l = negb (existsb f l).
+Proof. induction l; simpl; [reflexivity|]. rewrite IHl. destruct (f a); reflexivity. Qed.
+Lemma forallb_as_negb_existsb : forall {A} (f : A -> bool) l, forallb f l = negb (existsb (fun a => negb (f a)) l).
+Proof. induction l; simpl; [reflexivity|]. rewrite IHl. destruct (f a); reflexivity. Qed.
+Lemma tests_to_map : forall {A} L (f : A -> bool * cond) (xs : list A),
+  tests_to L (map f xs) = map (fun a => IJmpIf (fst (f a)) (snd (f a)) L) xs.
+Proof. intros. unfold tests_to. rewrite map_map. reflexivity. Qed.
